@@ -95,6 +95,18 @@ def run(cx: Cx):
                              f"{s.describe()}: a position field is written outside move/move_to/the constructor; its value "
                              f"is not bounded by the world's extents", where=s.where)
     cx.floor('position write sites', n_sites, 12)
+    # every construction of a PositionComponent in the package is the verified placement
+    n_ctor = 0
+    for k, calls in cx.effects.calls.items():
+        for c in calls:
+            if c.data.get('via') == 'ctor' and c.data.get('ctor_class') is not None and c.data['ctor_class'].qualname == PC:
+                n_ctor += 1
+                if k != add_agent.qualname:
+                    f = prog.functions.get(k)
+                    cx.violation('R-BOUND', k, 'unverified-position-construction',
+                                 f"{k} constructs a PositionComponent outside SpaceWorld.add_agent's verified placement: its coordinates "
+                                 f"are not bounded by the world's extents", where=cx.where(f, c.line) if f else '')
+    cx.floor('PositionComponent construction sites', n_ctor, 1)
 
     # ------------------------------------------------------------ move
     self_s = Sym(move.params[0])
@@ -185,16 +197,16 @@ def run(cx: Cx):
         has_pc = _has_position(succ[0], move_to)
         S = f_or(*[p.cond for p in succ])
         S = _drop_atoms(S, has_pc)
-        E_pred = _inside(mself, moff, {ax: Sym(ax) for ax, _, _ in AXES})
-        cex = compare(S, E_pred, assume=mdom, domain='real')
-        if cex is None:
-            cx.ok('R-GUARD', 'move_to accepts exactly the in-world requests (all three axes)', where=cx.where(move_to),
+        r = compare_inside(S, mself, {ax: Sym(ax) for ax, _, _ in AXES})
+        if r is None:
+            cx.ok('R-GUARD', 'move_to accepts exactly the in-world requests (all three axes, both offsets)', where=cx.where(move_to),
                   function=move_to.qualname, accepts=repr(S))
         else:
+            label, found, expd, cex = r
             show = {a: b for a, b in cex.items() if not a.startswith('_')}
             cx.violation('R-GUARD', move_to.qualname, 'accepts-exactly-in-world-requests',
-                         f"move_to accepts under [{S!r}] but in-world is [{E_pred!r}]; they differ at {show} "
-                         f"(code accepts: {cex['_left']})", where=cx.where(move_to), found=repr(S), expected=repr(E_pred),
+                         f"move_to [{label}] accepts under [{found!r}] but in-world is [{expd!r}]; they differ at {show} "
+                         f"(code accepts: {cex['_left']})", where=cx.where(move_to), found=repr(found), expected=repr(expd),
                          counterexample=cex)
     else:
         cx.inconclusive('R-GUARD', 'move_to', 'no accepting path', where=cx.where(move_to), function=move_to.qualname)
@@ -208,15 +220,15 @@ def run(cx: Cx):
     if succ:
         S = f_or(*[p.cond for p in succ])
         S = _drop_nonposition_atoms(S)
-        E_pred = _inside(aself, aoff, {ax: Sym(pnames[ax]) for ax, _, _ in AXES})
-        cex = compare(S, E_pred, assume=adom, domain='real')
-        if cex is None:
-            cx.ok('R-GUARD', 'add_agent accepts exactly the in-world placements', where=cx.where(add_agent), function=add_agent.qualname)
+        r = compare_inside(S, aself, {ax: Sym(pnames[ax]) for ax, _, _ in AXES})
+        if r is None:
+            cx.ok('R-GUARD', 'add_agent accepts exactly the in-world placements (both offsets)', where=cx.where(add_agent), function=add_agent.qualname)
         else:
+            label, found, expd, cex = r
             show = {a: b for a, b in cex.items() if not a.startswith('_')}
             cx.violation('R-GUARD', add_agent.qualname, 'accepts-exactly-in-world-placements',
-                         f"SpaceWorld.add_agent accepts under [{S!r}] but in-world is [{E_pred!r}]; they differ at {show} "
-                         f"(code accepts: {cex['_left']})", where=cx.where(add_agent), found=repr(S), expected=repr(E_pred),
+                         f"SpaceWorld.add_agent [{label}] accepts under [{found!r}] but in-world is [{expd!r}]; they differ at {show} "
+                         f"(code accepts: {cex['_left']})", where=cx.where(add_agent), found=repr(found), expected=repr(expd),
                          counterexample=cex)
         for p in succ:
             ctor = [e for e in p.events if e.kind == 'call' and e.data.get('via') == 'ctor' and
@@ -265,6 +277,46 @@ def run(cx: Cx):
                          "SpaceWorld.remove_agent: a success path does not detach the leaving agent's PositionComponent",
                          where=cx.where(rem_agent), path=p.lines())
     cx.floor('SpaceWorld.remove_agent success paths', n, 1)
+
+
+def compare_inside(S, self_s, vals):
+    """Compare an acceptance condition S with "inside the world on every axis", separately for the two offset values
+    (0 continuous, 1 grid) and - when S is a conjunction of per-axis parts - axis by axis.  Returns None or
+    (case label, found, expected, counterexample)."""
+    from sa.terms import subst_formula, term_symbols, FAnd, TooManyRegions
+    off = Attr(self_s, '_index_offset')
+    for offv in (0, 1):
+        mp = {off: Num(Fraction(offv))}
+        Sc = subst_formula(S, mp)
+        label = f"_index_offset={offv} ({'continuous' if offv == 0 else 'grid'} world)"
+        exp_axis = {}
+        for ax, ext, _ in AXES:
+            E = Attr(self_s, ext)
+            v = vals[ax]
+            exp_axis[ax] = f_or(f_and(mk_cmp(ZERO, '<=', v), mk_cmp(v, '<=', sub(E, Num(Fraction(offv))))), f_not(positive(E)))
+        parts = list(Sc.parts) if isinstance(Sc, FAnd) else [Sc]
+        groups = {ax: [] for ax, _, _ in AXES}
+        mixed = []
+        for part in parts:
+            syms = term_symbols(part)
+            hit = [ax for ax, ext, _ in AXES if vals[ax] in syms or Attr(self_s, ext) in syms]
+            if len(hit) == 1:
+                groups[hit[0]].append(part)
+            else:
+                mixed.append(part)
+        if not mixed:
+            for ax, ext, _ in AXES:
+                Sa = f_and(*groups[ax])
+                cex = compare(Sa, exp_axis[ax], assume=extent_domain(Attr(self_s, ext)), domain='real')
+                if cex is not None:
+                    return (f"{label}, axis {ax}", Sa, exp_axis[ax], cex)
+            continue
+        Eall = f_and(*exp_axis.values())
+        dom = f_and(*[extent_domain(Attr(self_s, ext)) for _, ext, _ in AXES])
+        cex = compare(Sc, Eall, assume=dom, domain='real')
+        if cex is not None:
+            return (label, Sc, Eall, cex)
+    return None
 
 
 def _inside(self_s, off, vals):
